@@ -1,9 +1,10 @@
 """Property id -> check function; family -> replay function."""
 import fam_expander
 import fam_urls
+import fam_small
 
 CHECKS = {}
 REPLAY = {}
-for m in (fam_expander, fam_urls):
+for m in (fam_expander, fam_urls, fam_small):
     CHECKS.update(m.CHECKS)
     REPLAY.update(getattr(m, 'REPLAY', {}))
